@@ -42,9 +42,36 @@ def det_obj(A):
     return tot
 
 
-def inv_obj(A):
-    """Exact cofactor inverse (environment service for np.linalg.inv on object arrays)."""
+def _gauss_jordan_const(A):
+    from fractions import Fraction
     n = A.shape[0]
+    M = [[tosym(A[i, j]).c for j in range(n)] + [Fraction(int(i == j)) for j in range(n)] for i in range(n)]
+    for c in range(n):
+        piv = next((r for r in range(c, n) if M[r][c] != 0), None)
+        if piv is None:
+            raise np.linalg.LinAlgError('Singular matrix')
+        M[c], M[piv] = M[piv], M[c]
+        pv = M[c][c]
+        M[c] = [v / pv for v in M[c]]
+        for r in range(n):
+            if r != c and M[r][c] != 0:
+                f = M[r][c]
+                M[r] = [a - f * b for a, b in zip(M[r], M[c])]
+    out = np.empty((n, n), dtype=object)
+    for i in range(n):
+        for j in range(n):
+            out[i, j] = Sym(c=M[i][n + j])
+    return out
+
+
+def inv_obj(A):
+    """Exact inverse (environment service for np.linalg.inv on object arrays): Gauss-Jordan in Fractions for constant
+    matrices, cofactor formula for small symbolic ones."""
+    n = A.shape[0]
+    if all(tosym(v).c is not None for v in A.ravel()):
+        return _gauss_jordan_const(A)
+    if n > 4:
+        raise NotImplementedError('symbolic inverse of a %dx%d matrix' % (n, n))
     d = det_obj(A)
     out = np.empty((n, n), dtype=object)
     for i in range(n):
